@@ -40,8 +40,16 @@ Definition required (c : case) : list Z * option Z :=
   | CbDrain => (den 0 (expr c), None)
   | m => upto (interp_cb m) 0%nat (den 0 (expr c))
   end.
+(* "stops with the first error": after a ForEach that returned an error the iterator stands on the failing element,
+   the last one the callback saw *)
+Definition stopped_at_error (c : case) : bool :=
+  match mode c, err c with
+  | CbDrain, _ => true
+  | _, None => true
+  | _, Some _ => match post c with [(2, v)] => Z.eqb v (last (obs c) 0) | _ => false end
+  end.
 Definition oracle (c : case) : bool :=
-  agrees (required c) c && list_eqb lz_eqb (after c) (sources (expr c)).
+  agrees (required c) c && list_eqb lz_eqb (after c) (sources (expr c)) && stopped_at_error c.
 
 (* the operational model *)
 Definition model (c : case) : option (list Z * option Z) :=
@@ -67,7 +75,13 @@ Fixpoint again (k : nat) (i : it) : list (Z * Z) :=
 Definition model_post (c : case) : list (Z * Z) :=
   match mode c, build FUEL 0 (expr c) with
   | CbDrain, Some i => if is_nil i then [] else match final FUEL i with Some i' => again 2 i' | None => [] end
-  | _, _ => []
+  | CbDrain, None => []
+  (* ForEach stops at the first error: where the MODEL's iterator stands when its loop returns the error
+     (Iter/SeqProofs.foreach_stops_at_error: on the element whose callback failed), reported as (2, Value()) *)
+  | m, _ => match run_foreach_st FUEL (interp_cb m) (expr c) with
+            | Some (_, Some _, j) => [(2, value j)]
+            | _ => []
+            end
   end.
 Definition zz_eqb (a b : Z * Z) : bool := Z.eqb (fst a) (fst b) && Z.eqb (snd a) (snd b).
 
